@@ -199,6 +199,17 @@ class Executor(object):
             if bad:
                 raise Abandon(bad)
         m.phase = S
+        if (chk == 'C03' and S == 'jumpoff' and prev == 'jumpoff' and m.jo_wf and not m.follow_only
+                and m.round_in and op[0] in TRIALS):
+            # bounded liveness, second clause: a jump-off round in which every participant has attempted
+            # or retired, exactly one cleared and all the others went out, has produced the survivor
+            col = len(m.heights) - 1
+            cells = [(b, (m.ath[b].cells[col] if len(m.ath[b].cells) > col else '')) for b in m.round_in]
+            if all(any(x in cell for x in 'oxr') for b, cell in cells):
+                clr = [b for b, cell in cells if 'o' in cell]
+                notout = [b for b, a in m.ath.items() if a.out == 'no']
+                if len(clr) == 1 and notout == clr:
+                    raise Violation('undecided-after-decisive-jumpoff-round', {'op': op, 'round': dict(cells), 'state': S})
         if all_out and m.heights:
             if S in ('started', 'won', 'scheduled'):
                 if chk == 'C03':
@@ -605,9 +616,9 @@ class Director(object):
         p = self.crash * (3.0 if hot else 1.0)
         if r.random() < p:
             x = r.random()
-            if x < 0.5:
+            if x < 0.4:
                 ex.step(('crash_log',))
-            elif x < 0.85:
+            elif x < 0.7:
                 ex.step(('crash_card',))
             else:
                 ex.step(('resched', r.choice(RESCHED_KINDS), r.randrange(1 << 30)))
@@ -673,6 +684,14 @@ class Director(object):
             # ---- move the bar ----
             if m.phase in ('finished', 'drawn'):
                 break
+            if hk():
+                # e.g. an athlete just re-instated for a jump-off trying to jump before the bar is set
+                op = self.heckle_op(ex)
+                if op:
+                    self.step(ex, op)
+                    self.maybe_fault(ex, hot=True)
+                    if m.phase in ('finished', 'drawn'):
+                        break
             if m.phase == 'jumpoff':
                 if jo_rounds >= self.JH:
                     break
